@@ -210,7 +210,7 @@ fn resolve(a: Bound<usize>, b: Bound<usize>, len: usize) -> Option<(usize, usize
 fn ops_for(len: usize, next: Item) -> Vec<Op> {
     let mut v = vec![Op::Push(next), Op::Pop, Op::Clear, Op::Rebuild];
     let ends = |n: usize| -> Vec<Bound<usize>> { (0..=n).flat_map(|x| [Bound::Included(x), Bound::Excluded(x)]).chain([Bound::Unbounded]).collect() };
-    for a in [Bound::Unbounded].into_iter().chain((0..=len).map(Bound::Included)) {
+    for a in [Bound::Unbounded].into_iter().chain((0..=len).map(Bound::Included)).chain((0..=len).map(Bound::Excluded)) {
         for b in ends(len) {
             if let Some((s, e)) = resolve(a, b, len) {
                 let n = e - s;
@@ -345,7 +345,7 @@ pub fn run_one<G: HCfg>(ctx: &Ctx, total: &mut Collector, only_history: Option<V
     }
     c.add(&sub, states, trans, trans, states.saturating_sub(1));
     total.merge(c);
-    total.exhaustive(&sub, true, &format!("Alpha<Color<Vec<f32>>, Vec<u8>> (alpha element type differs from the colour's): BFS over contents up to length {MAXLEN}, depth {depth}; every transition from {{push, pop, clear, collect, extend(0/1/2 items), drain(every valid start/end bound combination incl. inclusive and unbounded ends x 5 consume patterns front/back)}} re-executed on a freshly built collection and compared with a Vec model (component vectors and alpha vector read from the fields, get(i) for every i)"));
+    total.exhaustive(&sub, true, &format!("Alpha<Color<Vec<f32>>, Vec<u8>> (alpha element type differs from the colour's): BFS over contents up to length {MAXLEN}, depth {depth}; every transition from {{push, pop, clear, collect, extend(0/1/2 items), drain(every valid start/end bound combination incl. exclusive starts, inclusive and unbounded ends x 5 consume patterns front/back)}} re-executed on a freshly built collection and compared with a Vec model (component vectors and alpha vector read from the fields, get(i) for every i)"));
 }
 
 pub fn run(ctx: &Ctx, total: &mut Collector) {
